@@ -58,17 +58,20 @@ func compatible(a, b ikind) bool {
 // ikTables: the repository's index spaces. Keys are "<rel pkg>.<Struct>.<Field>".
 var ikContainers = map[string]cdesc{
 	// the bond graph
-	"pkg/bondmachine.Bondmachine.Links":            {key: "II", elem: "IO"},
-	"pkg/bondmachine.Bondmachine.Internal_inputs":  {key: "II"},
-	"pkg/bondmachine.Bondmachine.Internal_outputs": {key: "IO"},
-	"pkg/bondmachine.Bondmachine.Processors":       {key: "PROC", elem: "DOM"},
-	"pkg/bondmachine.Bondmachine.Domains":          {key: "DOM"},
-	"pkg/bondmachine.Bondmachine.Shared_links":     {key: "PROC", sub: &cdesc{elem: "SO"}},
-	"pkg/bondmachine.Bondmachine.Shared_objects":   {key: "SO"},
+	"pkg/bondmachine.Bondmachine.Links":                 {key: "II", elem: "IO"},
+	"pkg/bondmachine.Bondmachine.Internal_inputs":       {key: "II"},
+	"pkg/bondmachine.Bondmachine.Internal_outputs":      {key: "IO"},
+	"pkg/bondmachine.Bondmachine.Processors":            {key: "PROC", elem: "DOM"},
+	"pkg/bondmachine.Bondmachine.Domains":               {key: "DOM"},
+	"pkg/bondmachine.Bondmachine.Shared_links":          {key: "PROC", sub: &cdesc{elem: "SO"}},
+	"pkg/bondmachine.Bondmachine.Shared_objects":        {key: "SO"},
 	"pkg/bondmachine.Bondmachine_json.Links":            {key: "II", elem: "IO"},
 	"pkg/bondmachine.Bondmachine_json.Internal_inputs":  {key: "II"},
 	"pkg/bondmachine.Bondmachine_json.Internal_outputs": {key: "IO"},
 	"pkg/bondmachine.Bondmachine_json.Processors":       {key: "PROC", elem: "DOM"},
+	"pkg/bondmachine.Bondmachine_json.Domains":          {key: "DOM"},
+	"pkg/bondmachine.Bondmachine_json.Shared_links":     {key: "PROC", sub: &cdesc{elem: "SO"}},
+	"pkg/bondmachine.Bondmachine_json.Shared_objects":   {key: "SO"},
 	// the simulator's mirrors of it
 	"pkg/bondmachine.VM.Internal_inputs_regs":  {key: "II"},
 	"pkg/bondmachine.VM.InternalInputsValid":   {key: "II"},
@@ -93,21 +96,21 @@ var ikContainers = map[string]cdesc{
 	"pkg/procbuilder.VM.OutputsValid": {key: "POUT"},
 	"pkg/procbuilder.VM.OutputsRecv":  {key: "POUT"},
 	// simbox rules compiled to tables
-	"pkg/bondmachine.SimDrive.Injectables":      {key: "INJ"},
-	"pkg/bondmachine.SimDrive.NeedValid":        {key: "INJ", elem: "XIN"},
-	"pkg/bondmachine.SimDrive.AbsSet":           {sub: &cdesc{key: "INJ"}},
-	"pkg/bondmachine.SimDrive.PerSet":           {sub: &cdesc{key: "INJ"}},
-	"pkg/bondmachine.SimReport.Reportables":     {key: "REP"},
+	"pkg/bondmachine.SimDrive.Injectables":       {key: "INJ"},
+	"pkg/bondmachine.SimDrive.NeedValid":         {key: "INJ", elem: "XIN"},
+	"pkg/bondmachine.SimDrive.AbsSet":            {sub: &cdesc{key: "INJ"}},
+	"pkg/bondmachine.SimDrive.PerSet":            {sub: &cdesc{key: "INJ"}},
+	"pkg/bondmachine.SimReport.Reportables":      {key: "REP"},
 	"pkg/bondmachine.SimReport.ReportablesTypes": {key: "REP"},
 	"pkg/bondmachine.SimReport.ReportablesNames": {key: "REP"},
-	"pkg/bondmachine.SimReport.Showables":       {key: "SHO"},
-	"pkg/bondmachine.SimReport.ShowablesTypes":  {key: "SHO"},
-	"pkg/bondmachine.SimReport.ShowablesNames":  {key: "SHO"},
-	"pkg/bondmachine.SimReport.EventData":       {key: "EVD"},
-	"pkg/bondmachine.SimReport.AbsGet":          {sub: &cdesc{key: "REP"}},
-	"pkg/bondmachine.SimReport.PerGet":          {sub: &cdesc{key: "REP"}},
-	"pkg/bondmachine.SimReport.AbsShow":         {sub: &cdesc{key: "SHO"}},
-	"pkg/bondmachine.SimReport.PerShow":         {sub: &cdesc{key: "SHO"}},
+	"pkg/bondmachine.SimReport.Showables":        {key: "SHO"},
+	"pkg/bondmachine.SimReport.ShowablesTypes":   {key: "SHO"},
+	"pkg/bondmachine.SimReport.ShowablesNames":   {key: "SHO"},
+	"pkg/bondmachine.SimReport.EventData":        {key: "EVD"},
+	"pkg/bondmachine.SimReport.AbsGet":           {sub: &cdesc{key: "REP"}},
+	"pkg/bondmachine.SimReport.PerGet":           {sub: &cdesc{key: "REP"}},
+	"pkg/bondmachine.SimReport.AbsShow":          {sub: &cdesc{key: "SHO"}},
+	"pkg/bondmachine.SimReport.PerShow":          {sub: &cdesc{key: "SHO"}},
 }
 
 // named map types whose keys carry a kind when reached through the typed tables above are
@@ -125,11 +128,11 @@ var ikCountFields = map[string]ikind{
 }
 
 type ikEngine struct {
-	r     *core.Run
-	prog  *core.Program
-	prop  string
-	owner map[*types.Var]string // field -> "<rel>.<Struct>.<Field>"
-	mapTo map[string]int64      // constant names of Map_to values
+	r                      *core.Run
+	prog                   *core.Program
+	prop                   string
+	owner                  map[*types.Var]string // field -> "<rel>.<Struct>.<Field>"
+	mapTo                  map[string]int64      // constant names of Map_to values
 	nSinks, nKnown, nFuncs int
 }
 
@@ -165,13 +168,13 @@ func (e *ikEngine) fieldDesc(f *types.Var) (cdesc, bool) {
 
 // funcState is the per-function inference state.
 type ikFunc struct {
-	e     *ikEngine
-	pk    *packages.Package
-	info  *types.Info
-	fd    *ast.FuncDecl
-	env   map[types.Object]ikind
-	cenv  map[types.Object]cdesc
-	side  map[types.Object]string // bond variable -> "II" | "IO" (which list it ranges over)
+	e       *ikEngine
+	pk      *packages.Package
+	info    *types.Info
+	fd      *ast.FuncDecl
+	env     map[types.Object]ikind
+	cenv    map[types.Object]cdesc
+	side    map[types.Object]string // bond variable -> "II" | "IO" (which list it ranges over)
 	parents map[ast.Node]ast.Node
 }
 
